@@ -80,6 +80,10 @@ struct Item {
     /// `*self.f.add(e)` -> `self.f[e]`
     #[serde(default)]
     ptr_field: Option<String>,
+    /// E4b: safe indexing `X[e]` panics when `e` is out of range (language-defined): `X[e]` -> `X[vx_idx(e, X.len())]`, where the
+    /// verified prelude helper `vx_idx(i, n)` diverges for `i >= n` and returns `i` otherwise
+    #[serde(default)]
+    safe_index: bool,
     /// E8b: `for PAT in X.m()` where `m` is the unit's own iterator-returning method whose body is `CTOR(self)`:
     /// method name -> CTOR (e.g. "arcs" -> "ArcsIterator::new")
     #[serde(default)]
@@ -768,7 +772,65 @@ impl<'a, 'ast> Visit<'ast> for Ctx<'a> {
                 }
                 return;
             }
-            syn::Expr::Index(_) => self.site("index"),
+            syn::Expr::Reference(rf) if self.item.safe_index && rf.mutability.is_some() && matches!(&*rf.expr, syn::Expr::Index(ix) if !matches!(&*ix.index, syn::Expr::Range(_))) => {
+                // E4b, mutable place: `&mut X[e]` -> `{ let vx_n = X.len(); let vx_i = vx_idx(e, vx_n); &mut X[vx_i] }`
+                // (the length cannot be read inside the index expression while X is mutably borrowed). Side condition: X is a
+                // place expression and e is free of calls / macros / closures / nested indexing, so hoisting it is unobservable.
+                if let syn::Expr::Index(ix) = &*rf.expr {
+                    self.site("index");
+                    struct Pure(bool);
+                    impl<'ast> Visit<'ast> for Pure {
+                        fn visit_expr_call(&mut self, _: &'ast syn::ExprCall) { self.0 = false; }
+                        fn visit_expr_method_call(&mut self, _: &'ast syn::ExprMethodCall) { self.0 = false; }
+                        fn visit_expr_macro(&mut self, _: &'ast syn::ExprMacro) { self.0 = false; }
+                        fn visit_expr_closure(&mut self, _: &'ast syn::ExprClosure) { self.0 = false; }
+                        fn visit_expr_index(&mut self, _: &'ast syn::ExprIndex) { self.0 = false; }
+                        fn visit_expr_assign(&mut self, _: &'ast syn::ExprAssign) { self.0 = false; }
+                    }
+                    fn is_place2(e: &syn::Expr) -> bool {
+                        match e {
+                            syn::Expr::Path(_) => true,
+                            syn::Expr::Field(f) => is_place2(&f.base),
+                            syn::Expr::Paren(p) => is_place2(&p.expr),
+                            _ => false,
+                        }
+                    }
+                    let mut pu = Pure(true);
+                    pu.visit_expr(&ix.index);
+                    if pu.0 && is_place2(&ix.expr) {
+                        let base = self.src.slice(ix.expr.span()).to_string();
+                        let idx = self.src.slice(ix.index.span()).to_string();
+                        let (a, b) = self.src.range(rf.span());
+                        self.add(a, b, format!("{{ let vx_n = {base}.len(); let vx_i = vx_idx({idx}, vx_n); &mut {base}[vx_i] }}"), "E4b safe-index bounds check (mutable place)");
+                        self.site("arith_in_index");
+                        return;
+                    }
+                    self.errors.push(format!("E4b: side condition failed for `{}`", norm(self.src.slice(rf.span()))));
+                }
+            }
+            syn::Expr::Index(ix) => {
+                self.site("index");
+                if self.item.safe_index && !matches!(&*ix.index, syn::Expr::Range(_)) {
+                    // side condition: the indexed expression is a place (path / field chain), so evaluating `.len()` on it has no effect
+                    fn is_place(e: &syn::Expr) -> bool {
+                        match e {
+                            syn::Expr::Path(_) => true,
+                            syn::Expr::Field(f) => is_place(&f.base),
+                            syn::Expr::Paren(p) => is_place(&p.expr),
+                            syn::Expr::Unary(u) if matches!(u.op, syn::UnOp::Deref(_)) => is_place(&u.expr),
+                            _ => false,
+                        }
+                    }
+                    if is_place(&ix.expr) {
+                        let base = self.src.slice(ix.expr.span()).to_string();
+                        let (a, b) = self.src.range(ix.index.span());
+                        self.add(a, a, "vx_idx(".to_string(), "E4b safe-index bounds check");
+                        self.add(b, b, format!(", {base}.len())"), "E4b safe-index bounds check");
+                    } else {
+                        self.errors.push(format!("E4b: side condition failed: `{}` is not a place expression", norm(self.src.slice(ix.expr.span()))));
+                    }
+                }
+            }
             syn::Expr::Unsafe(_) => self.site("unsafe_block"),
             syn::Expr::Binary(b) => {
                 use syn::BinOp::*;
